@@ -467,6 +467,8 @@ def evaluate__datetime_type_and_function(self: XPathConstructor, context: ta.Con
 
 @constructor('untypedAtomic')
 def cast__untyped_atomic(self: XPathConstructor, value: ta.AtomicType) -> UntypedAtomic:
+    if isinstance(value, (float, decimal.Decimal)):
+        return UntypedAtomic(self.string_value(value))
     return UntypedAtomic(value)
 
 
